@@ -183,7 +183,14 @@ func (r *rdbdriver) GetLocationByMap(ipnet *net.IPNet, mapID []byte, context Con
 	fullKey := make([]byte, 4+2+net.IPv6len+1) // 4 bytes for prefix, 2 bytes for mapID, and the rest is IP and masklen
 	copy(fullKey, ipMapRangePointKeyElement)   // prefix, 4 bytes
 	copy(fullKey[4:], mapID)                   // mapID, 2 bytes
-	copy(fullKey[6:], ipnet.IP.To16())
+	// host bits beyond the prefix length must not take part in the search:
+	// they would let a subnet longer than the client's own prefix match
+	ip := ipnet.IP.Mask(ipnet.Mask)
+	if ip == nil {
+		// address and mask of different families: nothing sensible to mask
+		ip = ipnet.IP
+	}
+	copy(fullKey[6:], ip.To16())
 	reqMaskLen, _ := ipnet.Mask.Size()
 	if isIPv4(ipnet.IP) {
 		reqMaskLen += 128 - 32
